@@ -11,7 +11,7 @@ CHECKS = {
          "Every result of every call of several thousand seeded histories (hostile keys, boundary content lengths, irregular readers/writers) equals the reference model; held on what was run, not a proof.", "trusted: reference model refmodel, the OS file system", "3/C01"),
  "C02": ("exploration", "differential runtime monitoring: sequentially interleaved multi-transaction histories; every open transaction and the autocommit caller probe every key after every step; oracle = reference model",
          "All reads of all actors at all four levels after every step of seeded histories (up to 5 open transactions, collector passes in between) equal the model.", "trusted: reference model (RU accepts both datings of a committed value)", "3/C02"),
- "C03": ("exploration", "differential runtime monitoring: commit-focused histories, Commit/Rollback classes and all-key probes vs reference model",
+ "C03": ("exploration", "differential runtime monitoring: commit-focused histories, Commit/Rollback classes and all-key probes vs reference model; plus fault injection into the metadata writes of a Commit (every position, all levels) judged by autocommit / ReadUncommitted / RepeatableRead readers open across it and after reopen",
          "Both directions of 'fails iff write-write conflict' and all-or-nothing visibility are compared with the model on every commit/rollback of seeded histories.", "trusted: reference model", "3/C03"),
  "C05": ("exploration", "differential runtime monitoring across Close/Open in four process configurations (same process, decoy database first, two interleaved databases, process per segment), histories with more records than one iterator batch, long / non-ASCII / non-UTF-8 keys",
          "State after every reopen and after overwrites following a reopen equals the model in all four process configurations.", "trusted: reference model", "3/C05"),
